@@ -67,6 +67,12 @@ func newPrep(t *testing.T) *prepT {
 			return
 		}
 		p.vals["$atjwt"], p.vals["$rtjwt"], p.vals["$idtjwt"] = tj.Str("access_token"), tj.Str("refresh_token"), tj.Str("id_token")
+		codeP, respP := r.CodeFlow(0, "pub", "u1", "openid", url.Values{"code_challenge": {pkceChallenge}, "code_challenge_method": {"S256"}})
+		if codeP == "" {
+			fail = fmt.Sprintf("no PKCE code: %d %s", respP.Status, respP.Body)
+			return
+		}
+		p.vals["$codepkce"] = codeP
 		id, _ := r.Authorize(0, url.Values{"client_id": {"web"}, "redirect_uri": {"https://rp.example/cb"}, "response_type": {"code"}, "scope": {"openid"}, "state": {"st"}})
 		if id == "" || r.Core.Login(id, "u1") != nil {
 			fail = "no auth request for callback baseline"
@@ -126,6 +132,12 @@ type endpointT struct {
 	open   bool // any single answer is fine for the baseline (unknown path)
 }
 
+// RFC 7636 appendix B
+const (
+	pkceVerifier  = "dBjftJeZ4CVP-mB92K27uhbUJU1p1r_wW1gFWFOEjXk"
+	pkceChallenge = "E9Melhoa2OwvFrEMTJguCHaoeK1t8URWbuGJSstw-cM"
+)
+
 const (
 	gtCode    = "authorization_code"
 	gtRefresh = "refresh_token"
@@ -147,12 +159,15 @@ var endpoints = []endpointT{
 	{name: "authorize", method: "GET", path: "/authorize", params: []kv{
 		{"client_id", "web"}, {"redirect_uri", "https://rp.example/cb"}, {"response_type", "code"}, {"scope", "openid profile"},
 		{"state", "st"}, {"nonce", "n-1"}, {"max_age", "300"}, {"prompt", "login"}, {"ui_locales", "en"},
-		{"code_challenge", "E9Melhoa2OwvFrEMTJguCHaoeK1t8URWbuGJSstw-cM"}, {"id_token_hint", "$idt"}, {"response_mode", "query"}},
+		{"code_challenge", pkceChallenge}, {"id_token_hint", "$idt"}, {"response_mode", "query"}},
 		serve: func(r *rig.Resp) bool { return is302(r) && strings.Contains(r.Header.Get("Location"), "/login") }},
 	{name: "callback", method: "GET", path: "/authorize/callback", params: []kv{{"id", "$authid"}},
 		serve: func(r *rig.Resp) bool { return is302(r) && strings.Contains(r.Header.Get("Location"), "code=") }},
 	{name: "token-code", method: "POST", path: "/oauth/token", auth: "basic:web", params: []kv{
 		{"grant_type", gtCode}, {"code", "$code"}, {"redirect_uri", "https://rp.example/cb"}},
+		serve: hasTok, direct: func(w http.ResponseWriter, r *http.Request, p *op.Provider) { op.CodeExchange(w, r, p) }},
+	{name: "token-code-pkce", method: "POST", path: "/oauth/token", params: []kv{
+		{"grant_type", gtCode}, {"code", "$codepkce"}, {"redirect_uri", "https://rp.example/cb"}, {"client_id", "pub"}, {"code_verifier", pkceVerifier}},
 		serve: hasTok, direct: func(w http.ResponseWriter, r *http.Request, p *op.Provider) { op.CodeExchange(w, r, p) }},
 	{name: "token-refresh", method: "POST", path: "/oauth/token", auth: "basic:web", params: []kv{
 		{"grant_type", gtRefresh}, {"refresh_token", "$rt"}, {"scope", "openid"}},
@@ -224,7 +239,7 @@ var extras = []extraT{
 	{"assertion-null", []kv{{"client_assertion", "@jwt-null"}, {"client_assertion_type", "urn:ietf:params:oauth:client-assertion-type:jwt-bearer"}}},
 	{"assertion-audnum", []kv{{"client_assertion", "@jwt-audnum"}, {"client_assertion_type", "urn:ietf:params:oauth:client-assertion-type:jwt-bearer"}}},
 	{"assertion-badtype", []kv{{"client_assertion", "$cliassert"}, {"client_assertion_type", "x"}}},
-	{"code_verifier", []kv{{"code_verifier", "dBjftJeZ4CVP-mB92K27uhbUJU1p1r_wW1gFWFOEjXk"}}},
+	{"code_verifier", []kv{{"code_verifier", pkceVerifier}}},
 	{"request-ok", []kv{{"request", "$reqobj"}}},
 	{"request-null", []kv{{"request", "@jwt-null"}}},
 	{"request-audnum", []kv{{"request", "@jwt-audnum"}}},
